@@ -29,7 +29,7 @@ CLAIMED = {
     "C10": ("§5 C10", "SSA symbolic execution + SMT: every decoder on FULLY symbolic byte strings of every length up to the bound (every Go panic / out-of-buffer access / oversized allocation is a proof obligation; attacker-sized buffers are modelled lazily), every proper prefix of valid streams, V=>I on unconstrained representations, MustReadFrom vs ReadFrom"),
     "C11": ("§5 C11", "SSA symbolic execution + SMT: the eight aggregates on lists of symbolic bitmaps (empty, singleton, duplicate objects, empty members; keys over the whole key space incl. 0xFFFF) against the pointwise fold; Par* with worker counts 0..3 under one deterministic goroutine schedule"),
     "C13": ("§5 C13", "SSA symbolic execution + SMT on the flat memory model (the unsafe struct arena of frozenView is executed as is): three frozen writers byte-compared, sizes, too-small buffers, independent CRoaring-layout parse, FrozenView/MustFrozenView of the write-protected bytes compared pointwise"),
-    "C14": ("§5 C14", "SSA symbolic execution + SMT (bit-vectors and cvc5 integer encoding): the real size accounting and BoundSerializedSizeInBytes executed over SYMBOLIC cardinalities/run counts satisfying the invariant (n <= 8/16 chunks), plus short real histories"),
+    "C14": ("§5 C14", "SSA symbolic execution + SMT (bit-vectors and cvc5 integer encoding): the real size accounting and BoundSerializedSizeInBytes executed over SYMBOLIC cardinalities/run counts satisfying the invariant (n <= 8/12 chunks), plus short real histories"),
     "C15": ("§5 C15", "SSA symbolic execution + SMT: neighbour queries with free target and free probe (nearest-ness is universally quantified); per-kind helpers separately"),
 }
 NA = {
